@@ -857,10 +857,17 @@ Qed.
 
 (* one hash that satisfies the coupling invariant: what each lookup answers for a present and for an absent key *)
 Definition lookups_exact (c : sh) : Prop :=
-  NoDup (map fst (entries c)) /  forall k,
+  NoDup (map fst (entries c)) /\
+  forall k,
     (In k (map fst (entries c)) ->
-       exists v, In (k, v) (entries c) /\ get c k = RVal (Some v) /\ includes c k = true /                 (forall d, get_or_default c k d = RVal (Some v)) /                 (forall w, compute_if_absent c k w = (c, RVal (Some v))) /                 compute_panic c k = (c, RVal (Some v))) /    (~ In k (map fst (entries c)) ->
-       get c k = RVal None /\ includes c k = false /       (forall d, get_or_default c k d = RVal (Some d)) /       (frozen c = false -> delete c k = (c, RVal None))).
+       exists v, In (k, v) (entries c) /\ get c k = RVal (Some v) /\ includes c k = true /\
+                 (forall d, get_or_default c k d = RVal (Some v)) /\
+                 (forall w, compute_if_absent c k w = (c, RVal (Some v))) /\
+                 compute_panic c k = (c, RVal (Some v))) /\
+    (~ In k (map fst (entries c)) ->
+       get c k = RVal None /\ includes c k = false /\
+       (forall d, get_or_default c k d = RVal (Some d)) /\
+       (frozen c = false -> delete c k = (c, RVal None))).
 
 Lemma rel_lookups_exact c s : rel c s -> lookups_exact c.
 Proof.
